@@ -18,7 +18,7 @@ RULE = ('cases: histories (3..30 steps) of update_settings (1..4 keys, valid and
 ASSUMPTIONS = ['known finding K02 (an ACK applies one pending value per key) is modelled exactly: the observed '
                'acknowledgement must equal the RFC model or exactly that deviation']
 TIERS = {'quick': {'cases': 5000, 'size': 300},
-         'thorough': {'cases': 200000, 'size': 400}}
+         'thorough': {'cases': 1600000, 'size': 400}}
 
 DEFAULT_LOCAL = {1: 4096, 3: 100, 4: 65535, 5: 16384, 6: 65536, 8: 0}   # + 2: role dependent
 DEFAULT_REMOTE = {1: 4096, 4: 65535, 5: 16384, 8: 0}
